@@ -613,6 +613,20 @@ theorem LineDev.onWrite_return (dv : LineDev) (line : Bytes) :
     dv.onWrite line [NL] = ([], dv.respond line) := by
   simp [LineDev.onWrite]
 
+/-- the return characters of the property's quantifier: `\n` and `\r\n` -/
+def IsRet (r : Bytes) : Prop := r = [NL] ∨ r = [CR, NL]
+
+/-- the device reacts to either return in the same way (it ignores the carriage return) -/
+theorem LineDev.onWrite_ret (dv : LineDev) (line : Bytes) {r : Bytes} (h : IsRet r) :
+    dv.onWrite line r = ([], dv.respond line) := by
+  rcases h with rfl | rfl
+  · exact dv.onWrite_return line
+  · have h1 : (CR == NL) = false := by decide
+    have h2 : (CR == CR) = true := by decide
+    unfold LineDev.onWrite
+    simp only [h1, h2, Bool.false_eq_true, ↓reduceIte]
+    exact dv.onWrite_return line
+
 theorem hws_squishBuf {b : Bytes} (h : ∀ x ∈ b, isHws x = true) : squishBuf b = [] := by
   unfold squishBuf
   rw [List.filter_eq_nil_iff]
@@ -685,7 +699,7 @@ theorem ws_of_squish_nil {L : Bytes} (h : squish L = []) : ∀ x ∈ L, isWs x =
 structure Fits (P : Bytes → Bool) (cfg : Cfg) (dv : LineDev) : Prop where
   search_lines : ∀ x, cfg.prompt.search x = (splitNL x).any P
   strict : cfg.rough = false
-  ret : cfg.ret = [NL]
+  ret : IsRet cfg.ret
   blank : ∀ s, squishBuf s = [] → P s = false          -- invisible text is never a prompt
   noEarly : NoEarly P dv.prompt
   promptOK : PromptOK P dv.prompt dv.trail
@@ -763,7 +777,7 @@ theorem sendInput_frames {P : Bytes → Bool} {cfg : Cfg} {dv : LineDev} (hf : F
       sendInput cfg dv.onWrite input stripPrompt false false (w, []) =
         some ((L ++ dv.rbody input ++ NL :: dv.prompt ++ t',
                processOutput cfg (L ++ dv.rbody input ++ NL :: dv.prompt ++ t') stripPrompt),
-              ({ avail := t'', cuts := cuts', writes := w.writes ++ [input, [NL]] }, [])) := by
+              ({ avail := t'', cuts := cuts', writes := w.writes ++ [input, cfg.ret] }, [])) := by
   have hne : input ≠ [] := by intro e; exact hg.visible (by rw [e]; rfl)
   -- phase 1: write the input, read the echo
   have hw1 : Wire.write dv.onWrite (w, []) input =
@@ -788,9 +802,9 @@ theorem sendInput_frames {P : Bytes → Bool} {cfg : Cfg} {dv : LineDev} (hf : F
     rw [hsplit1] at this; exact this)
   -- phase 2: write the return, read up to the prompt
   have hw2 : Wire.write dv.onWrite
-      ({ avail := L, cuts := cuts1, writes := w.writes ++ [input] }, input) [NL] =
-      ({ avail := L ++ dv.respond input, cuts := cuts1, writes := w.writes ++ [input, [NL]] }, []) := by
-    simp [Wire.write, dv.onWrite_return]
+      ({ avail := L, cuts := cuts1, writes := w.writes ++ [input] }, input) cfg.ret =
+      ({ avail := L ++ dv.respond input, cuts := cuts1, writes := w.writes ++ [input, cfg.ret] }, []) := by
+    simp [Wire.write, dv.onWrite_ret input hf.ret]
   have hav2 : L ++ dv.respond input = (L ++ dv.rbody input) ++ NL :: dv.prompt ++ dv.trail := by
     simp [LineDev.respond, List.append_assoc]
   have hpl2 : Plain (L ++ dv.respond input) := by
@@ -799,7 +813,7 @@ theorem sendInput_frames {P : Bytes → Bool} {cfg : Cfg} {dv : LineDev} (hf : F
       (nl_cons_plain hf.prompt_plain)).append (hws_plain hf.trail_hws)
   obtain ⟨t', t'', cuts2, htt, hru2⟩ :=
     readUntil_prompt cfg.prompt cfg.depth (L ++ dv.rbody input) dv.prompt dv.trail
-      { avail := L ++ dv.respond input, cuts := cuts1, writes := w.writes ++ [input, [NL]] }
+      { avail := L ++ dv.respond input, cuts := cuts1, writes := w.writes ++ [input, cfg.ret] }
       hav2 hpl2 rfl hf.search_lines (quiet_body hf hg hL hLnl) hf.noEarly hf.promptOK hf.prompt_nl
       (hws_noNL hf.trail_hws) hf.prompt_ne hf.fits_window
   have hLbs : BS ∉ L := by
@@ -813,7 +827,7 @@ theorem sendInput_frames {P : Bytes → Bool} {cfg : Cfg} {dv : LineDev} (hf : F
   have hLws : ∀ x ∈ L, isWs x = true := ws_of_squish_nil (by rw [← squishBuf_text hLbs]; exact hL)
   refine ⟨L, t', t'', cuts2, hLws, hLnl, htt, ?_⟩
   unfold sendInput
-  simp only [hw1, Bool.false_or, hf.strict, hf.ret]
+  simp only [hw1, Bool.false_or, hf.strict]
   have hie : input.isEmpty = false := by simpa using hne
   simp only [hheld] at hru1
   simp only [hie, Bool.false_eq_true, ↓reduceIte, hheld, hru1, Option.map_some, hw2, hru2]
@@ -921,7 +935,7 @@ theorem session_in_step {P : Bytes → Bool} {cfg : Cfg} {dv : LineDev} (hf : Fi
     ∀ (w : Wire), (∀ x ∈ w.avail, isHws x = true) → w.held = [] →
       ∃ rs w', runCmds cfg dv.onWrite stripPrompt inputs (w, []) = some (rs, (w', [])) ∧
         rs.map (·.2) = inputs.map (expected cfg dv stripPrompt) ∧
-        w'.writes = w.writes ++ (inputs.map (fun i => [i, [NL]])).flatten ∧
+        w'.writes = w.writes ++ (inputs.map (fun i => [i, cfg.ret])).flatten ∧
         (∀ x ∈ w'.avail, isHws x = true) ∧ w'.held = [] := by
   intro inputs
   induction inputs with
@@ -933,7 +947,7 @@ theorem session_in_step {P : Bytes → Bool} {cfg : Cfg} {dv : LineDev} (hf : Fi
     obtain ⟨ht', ht''⟩ := suffix_hws htt hf.trail_hws
     obtain ⟨rs, w', hrun, hres, hwr, hav⟩ :=
       ih (fun j hj => hg j (by simp [hj]))
-        { avail := t'', cuts := cuts', writes := w.writes ++ [i, [NL]] } ht'' rfl
+        { avail := t'', cuts := cuts', writes := w.writes ++ [i, cfg.ret] } ht'' rfl
     refine ⟨(L ++ dv.rbody i ++ NL :: dv.prompt ++ t',
               processOutput cfg (L ++ dv.rbody i ++ NL :: dv.prompt ++ t') stripPrompt) :: rs, w', ?_, ?_, ?_, hav⟩
     · unfold runCmds; rw [hsend]; simp only; rw [hrun]; rfl
@@ -1066,11 +1080,11 @@ theorem getPrompt_exact {P : Bytes → Bool} {cfg : Cfg} {dv : LineDev} (hf : Fi
     (hout : dv.out [] = [])
     (w : Wire) (hres : ∀ x ∈ w.avail, isHws x = true) (hheld : w.held = []) :
     ∃ w', getPrompt cfg dv.onWrite (w, []) = some (strip dv.prompt, (w', [])) ∧
-      w'.writes = w.writes ++ [[NL]] ∧ (∀ x ∈ w'.avail, isHws x = true) ∧ w'.held = [] := by
+      w'.writes = w.writes ++ [cfg.ret] ∧ (∀ x ∈ w'.avail, isHws x = true) ∧ w'.held = [] := by
   have hrb : dv.rbody [] = [] := by simp [LineDev.rbody, hout]
   have hw1 : Wire.write dv.onWrite (w, []) cfg.ret =
-      ({ w with avail := w.avail ++ dv.respond [], writes := w.writes ++ [[NL]] }, []) := by
-    simp [Wire.write, hf.ret, dv.onWrite_return]
+      ({ w with avail := w.avail ++ dv.respond [], writes := w.writes ++ [cfg.ret] }, []) := by
+    simp [Wire.write, dv.onWrite_ret [] hf.ret]
   have hav : w.avail ++ dv.respond [] = w.avail ++ NL :: dv.prompt ++ dv.trail := by
     simp [LineDev.respond, hrb]
   have hpl : Plain (w.avail ++ dv.respond []) := by
@@ -1104,10 +1118,10 @@ theorem getPrompt_exact {P : Bytes → Bool} {cfg : Cfg} {dv : LineDev} (hf : Fi
   obtain ⟨m, hm1, hm2⟩ := hfirst _ _ hfind
   have hsplit := pieces_split w.cuts (w.avail ++ dv.respond []) k
   refine ⟨{ avail := ((piecesOf (w.avail ++ dv.respond []) w.cuts).drop k).flatten,
-            cuts := w.cuts.drop k, writes := w.writes ++ [[NL]] }, ?_, rfl, ?_, rfl⟩
+            cuts := w.cuts.drop k, writes := w.writes ++ [cfg.ret] }, ?_, rfl, ?_, rfl⟩
   · unfold getPrompt
     simp only [hw1]
-    rw [readUntil_plain _ { w with avail := w.avail ++ dv.respond [], writes := w.writes ++ [[NL]] } hpl hheld, hrl]
+    rw [readUntil_plain _ { w with avail := w.avail ++ dv.respond [], writes := w.writes ++ [cfg.ret] } hpl hheld, hrl]
     simp only [hm1, hheld]
     rw [hm2, strip_append_hws _ _ ht'hws]
   · -- what is left unread is a suffix of the trailing blanks
@@ -1155,9 +1169,9 @@ def expectedOp (cfg : Cfg) (dv : LineDev) (stripPrompt : Bool) : COp → Bytes
   | .cmd i => expected cfg dv stripPrompt i
   | .prompt => strip dv.prompt
 
-def opWrites : COp → List Bytes
-  | .cmd i => [i, [NL]]
-  | .prompt => [[NL]]
+def opWrites (ret : Bytes) : COp → List Bytes
+  | .cmd i => [i, ret]
+  | .prompt => [ret]
 
 theorem mixed_session_in_step {P : Bytes → Bool} {cfg : Cfg} {dv : LineDev} (hf : Fits P cfg dv)
     (hfirst : ∀ x L, (splitNL x).find? P = some L →
@@ -1167,7 +1181,7 @@ theorem mixed_session_in_step {P : Bytes → Bool} {cfg : Cfg} {dv : LineDev} (h
     ∀ (w : Wire), (∀ x ∈ w.avail, isHws x = true) → w.held = [] →
       ∃ rs w', runOps cfg dv.onWrite stripPrompt ops (w, []) = some (rs, (w', [])) ∧
         rs = ops.map (expectedOp cfg dv stripPrompt) ∧
-        w'.writes = w.writes ++ (ops.map opWrites).flatten ∧
+        w'.writes = w.writes ++ (ops.map (opWrites cfg.ret)).flatten ∧
         (∀ x ∈ w'.avail, isHws x = true) ∧ w'.held = [] := by
   intro ops
   induction ops with
@@ -1181,7 +1195,7 @@ theorem mixed_session_in_step {P : Bytes → Bool} {cfg : Cfg} {dv : LineDev} (h
         sendInput_frames hf i (hg i (by simp)) stripPrompt w hw hh
       obtain ⟨ht', ht''⟩ := suffix_hws htt hf.trail_hws
       obtain ⟨rs, w', hrun, hres, hwr, hav⟩ :=
-        ih hg' { avail := t'', cuts := cuts', writes := w.writes ++ [i, [NL]] } ht'' rfl
+        ih hg' { avail := t'', cuts := cuts', writes := w.writes ++ [i, cfg.ret] } ht'' rfl
       refine ⟨processOutput cfg (L ++ dv.rbody i ++ NL :: dv.prompt ++ t') stripPrompt :: rs, w', ?_, ?_, ?_, hav⟩
       · unfold runOps; rw [hsend]; simp only; rw [hrun]; rfl
       · rw [hres]
@@ -1253,6 +1267,86 @@ theorem rstrip_no_nl {l : Bytes} (h : NL ∉ l) : NL ∉ rstrip l := by
   unfold rstrip at hm
   have : NL ∈ l.reverse.dropWhile isWs := by simpa using hm
   exact h (by simpa using (List.dropWhile_suffix isWs).subset this)
+
+/-- the lines of a buffer contain only bytes of the buffer -/
+theorem splitNL_subset (b : Bytes) : ∀ l ∈ splitNL b, ∀ c ∈ l, c ∈ b := by
+  induction b with
+  | nil => intro l hl c hc; simp [splitNL] at hl; subst hl; simp at hc
+  | cons x r ih =>
+    intro l hl c hc
+    rw [splitNL_cons] at hl
+    have hne := splitNL_ne_nil r
+    cases hs : splitNL r with
+    | nil => exact absurd hs hne
+    | cons h t =>
+      rw [hs] at hl ih
+      by_cases hx : x = NL
+      · simp only [hx, beq_self_eq_true, ↓reduceIte] at hl
+        rcases List.mem_cons.mp hl with rfl | hl
+        · simp at hc
+        · exact List.mem_cons_of_mem _ (ih l hl c hc)
+      · have hxb : (x == NL) = false := by simpa using hx
+        simp only [hxb, Bool.false_eq_true, ↓reduceIte, List.headD_cons, List.tail_cons] at hl
+        rcases List.mem_cons.mp hl with rfl | hl
+        · rcases List.mem_cons.mp hc with e | e
+          · simp [e]
+          · exact List.mem_cons_of_mem _ (ih h (by simp) c e)
+        · exact List.mem_cons_of_mem _ (ih l (by simp [hl]) c hc)
+
+theorem rstrip_subset {l : Bytes} {c : UInt8} (h : c ∈ rstrip l) : c ∈ l := by
+  unfold rstrip at h
+  have : c ∈ l.reverse.dropWhile isWs := by simpa using h
+  simpa using (List.dropWhile_suffix isWs).subset this
+
+theorem mem_joinNL : ∀ (ls : List Bytes) (c : UInt8), c ∈ joinNL ls → c = NL ∨ ∃ l ∈ ls, c ∈ l := by
+  intro ls
+  induction ls with
+  | nil => intro c h; simp [joinNL] at h
+  | cons l rest ih =>
+    intro c h
+    cases rest with
+    | nil => right; exact ⟨l, by simp, by simpa [joinNL] using h⟩
+    | cons b r =>
+      have e : joinNL (l :: b :: r) = l ++ NL :: joinNL (b :: r) := by simp [joinNL]
+      rw [e] at h
+      rcases List.mem_append.mp h with h | h
+      · right; exact ⟨l, by simp, h⟩
+      · rcases List.mem_cons.mp h with h | h
+        · left; exact h
+        · rcases ih c h with h | ⟨l', hl', hc⟩
+          · left; exact h
+          · right; exact ⟨l', List.mem_cons_of_mem _ hl', hc⟩
+
+/-- the re-joined, right-trimmed lines of a CR-free buffer are CR-free -/
+theorem joinNL_rstrip_noCR {b : Bytes} (h : CR ∉ b) : CR ∉ joinNL ((splitNL b).map rstrip) := by
+  intro hm
+  rcases mem_joinNL _ _ hm with e | ⟨l, hl, hc⟩
+  · exact absurd e (by decide)
+  · obtain ⟨a, ha, rfl⟩ := List.mem_map.mp hl
+    exact h (splitNL_subset b a ha CR (rstrip_subset hc))
+
+/-- `lstrip(b"\r\n")` and `lstrip(b"\n")` agree on CR-free text: both return characters of the quantifier trim alike -/
+theorem lstripChars_ret {r : Bytes} (h : IsRet r) : ∀ (b : Bytes), CR ∉ b → lstripChars r b = lstripChars [NL] b := by
+  rcases h with rfl | rfl
+  · intro b _; rfl
+  · intro b
+    induction b with
+    | nil => intro _; rfl
+    | cons c rest ih =>
+      intro hcr
+      have hc : c ≠ CR := fun e => hcr (by simp [e])
+      have hrest : CR ∉ rest := fun e => hcr (by simp [e])
+      have ih' := ih hrest
+      unfold lstripChars at ih' ⊢
+      by_cases hn : c = NL
+      · subst hn
+        have h1 : ([CR, NL].contains NL) = true := by decide
+        have h2 : ([NL].contains NL) = true := by decide
+        simp only [List.dropWhile_cons, h1, h2, ↓reduceIte]
+        exact ih'
+      · have h1 : ([CR, NL].contains c) = false := by simp [hc, hn]
+        have h2 : ([NL].contains c) = false := by simp [hn]
+        simp only [List.dropWhile_cons, h1, h2, Bool.false_eq_true, ↓reduceIte]
 
 /-- a right-trimmed non-empty line stays as it is behind anything -/
 theorem rstrip_append_trimmed (x l : Bytes) (hl : l ≠ []) (hr : rstrip l = l) : rstrip (x ++ l) = x ++ l := by
@@ -1367,14 +1461,16 @@ theorem dropWhile_isEmpty_trimmed (ls : List Bytes) (h : ∀ l ∈ ls, rstrip l 
     ∀ l ∈ ls.dropWhile List.isEmpty, rstrip l = l :=
   fun l hl => h l ((List.dropWhile_suffix _).subset hl)
 
-/-- **what `_process_output` returns without prompt stripping** (return char `\n`): the lines of the
+/-- **what `_process_output` returns without prompt stripping** (return char `\n` or `\r\n`, CR-free buffer -- `Channel.read` removes every CR): the lines of the
     buffer, each right-trimmed, without the leading and trailing empty lines — for ANY buffer whose
     last line is not empty. -/
-theorem processOutput_lines (cfg : Cfg) (hret : cfg.ret = [NL]) (x z : Bytes) (hz : z ≠ []) (hznl : NL ∉ z) :
+theorem processOutput_lines (cfg : Cfg) (hret : IsRet cfg.ret) (x z : Bytes) (hz : z ≠ []) (hznl : NL ∉ z)
+    (hcr : CR ∉ x ++ NL :: z) :
     processOutput cfg (x ++ NL :: z) false = normalizeText (x ++ NL :: z) := by
   unfold processOutput normalizeText trimLines
-  simp only [Bool.false_eq_true, ↓reduceIte, hret]
+  simp only [Bool.false_eq_true, ↓reduceIte]
   rw [splitlines_last_ne hz hznl, ← splitNL_noNL z hznl, ← splitNL_append_NL]
+  rw [lstripChars_ret hret _ (joinNL_rstrip_noCR hcr)]
   have hnl : ∀ l ∈ (splitNL (x ++ NL :: z)).map rstrip, NL ∉ l := by
     intro l hl
     obtain ⟨a, ha, rfl⟩ := List.mem_map.mp hl
@@ -1394,14 +1490,20 @@ open Scrapli
     line-local pattern does on a buffer whose other lines are not prompt-like; validated against
     CPython on every real run by the correspondence), the result is the response without the prompt,
     every line right-trimmed, surrounding empty lines dropped. -/
-theorem processOutput_lines_strip (cfg : Cfg) (hret : cfg.ret = [NL]) (x p : Bytes) (hp : p ≠ [])
-    (hpnl : NL ∉ p)
+theorem processOutput_lines_strip (cfg : Cfg) (hret : IsRet cfg.ret) (x p : Bytes) (hp : p ≠ [])
+    (hpnl : NL ∉ p) (hcr : CR ∉ x)
     (hsub : cfg.prompt.sub (joinNL ((splitNL (x ++ NL :: p)).map rstrip)) =
       joinNL ((splitNL (x ++ [NL])).map rstrip)) :
     processOutput cfg (x ++ NL :: p) true = normalizeText (x ++ [NL]) := by
   unfold processOutput normalizeText trimLines
-  simp only [↓reduceIte, hret]
+  simp only [↓reduceIte]
   rw [splitlines_last_ne hp hpnl, ← splitNL_noNL p hpnl, ← splitNL_append_NL, hsub]
+  have hcr' : CR ∉ x ++ [NL] := by
+    intro hm
+    rcases List.mem_append.mp hm with h | h
+    · exact hcr h
+    · simp at h; exact absurd h (by decide)
+  rw [lstripChars_ret hret _ (joinNL_rstrip_noCR hcr')]
   have hnl : ∀ l ∈ (splitNL (x ++ [NL])).map rstrip, NL ∉ l := by
     intro l hl
     obtain ⟨a, ha, rfl⟩ := List.mem_map.mp hl
